@@ -256,35 +256,36 @@ pub fn run(ctx: &Ctx) -> Report {
     // cases with a huge base run under a watchdog: a roller whose work grows with the base value would not come back
     let (small, huge): (Vec<usize>, Vec<usize>) = (0..cs.len()).partition(|i| cs[*i].base < 1_000_000);
     let mut bad: Vec<(usize, (String, String))> = small.par_iter().filter_map(|i| if ctx.over_cap() { None } else { check(&cs[*i]).map(|m| (*i, m)) }).collect();
-    let (tx, rx) = std::sync::mpsc::channel();
-    for chunk in huge.chunks((huge.len() / 16).max(1)) {
-        let tx = tx.clone();
-        let list: Vec<(usize, Case)> = chunk.iter().map(|i| (*i, cs[*i].clone())).collect();
-        std::thread::spawn(move || {
-            for (i, c) in list {
-                let r = check(&c);
-                if tx.send((i, r)).is_err() {
-                    return;
-                }
-            }
-        });
-    }
-    drop(tx);
+    // they run in a worker process that can be killed: a roller that walks the index space creates files and
+    // directories at full speed, so the worker is stopped at the watchdog interval *or* as soon as the scratch
+    // file system has lost 400 000 inodes, and its scratch (below this process's root) is removed with ours
+    let tier_arg = if ctx.tier == Tier::Quick { "quick" } else { "thorough" };
+    let inodes_at_start = crate::engine::sandbox::free_inodes();
+    let o = crate::engine::proc::run_child_guarded(&ctx.exe, "c07huge", &[tier_arg.to_string()], &[], std::time::Duration::from_secs(ctx.tier.pick(20, 600)), &|| {
+        match (inodes_at_start, crate::engine::sandbox::free_inodes()) {
+            (Some(a), Some(b)) => a.saturating_sub(b) > 400_000,
+            _ => false,
+        }
+    });
     let mut seen_huge = 0usize;
-    let deadline = std::time::Instant::now() + std::time::Duration::from_secs(ctx.tier.pick(20, 600));
-    while seen_huge < huge.len() {
-        match rx.recv_timeout(deadline.saturating_duration_since(std::time::Instant::now())) {
-            Ok((i, r)) => {
-                seen_huge += 1;
-                if let Some(m) = r {
-                    bad.push((i, m));
-                }
+    let mut finished = false;
+    for v in o.json_lines() {
+        if v["kind"] == "result" {
+            seen_huge += 1;
+            if let (Some(i), Some(sg)) = (v["index"].as_u64(), v["sig"].as_str()) {
+                bad.push((i as usize, (sg.to_string(), v["detail"].as_str().unwrap_or("").to_string())));
             }
-            Err(_) => {
-                let i = huge[0];
-                bad.push((i, ("roll-does-not-return".into(), format!("{} of {} cases with base >= 4e9 did not finish within the watchdog interval: the work of a roll must not grow with the base value", huge.len() - seen_huge, huge.len()))));
-                break;
-            }
+        }
+        if v["kind"] == "stat" {
+            finished = true;
+        }
+    }
+    if !finished {
+        if o.timed_out {
+            bad.push((huge[0], ("roll-does-not-return".into(), format!("{} of {} cases with base >= 4e9 did not finish within the watchdog interval (or kept creating files): the work of a roll must not grow with the base value", huge.len() - seen_huge.min(huge.len()), huge.len()))));
+        } else {
+            eprintln!("MACHINERY FAILURE: the worker for the huge-base cases died: status {:?}: {}", o.status, String::from_utf8_lossy(&o.stderr).lines().last().unwrap_or(""));
+            std::process::exit(2);
         }
     }
     bad.sort_by_key(|(i, _)| *i);
@@ -365,6 +366,27 @@ pub fn replay(case: &Value) -> Result<(), String> {
 }
 
 /// `child c07bg` — run in the binary built with the `background_rotation` feature
+/// worker: the cases with a huge base, one result line per case as it finishes
+pub fn child_huge(args: &[String]) -> i32 {
+    let tier = if args.first().map(|s| s.as_str()) == Some("thorough") { Tier::Thorough } else { Tier::Quick };
+    let cs = cases(tier);
+    let huge: Vec<usize> = (0..cs.len()).filter(|i| cs[*i].base >= 1_000_000).collect();
+    huge.par_iter().for_each(|i| {
+        let r = check(&cs[*i]);
+        let line = match r {
+            Some((s, d)) => json!({"kind": "result", "index": i, "sig": s, "detail": d}),
+            None => json!({"kind": "result", "index": i}),
+        };
+        use std::io::Write;
+        let out = std::io::stdout();
+        let mut g = out.lock();
+        let _ = writeln!(g, "{}", line);
+        let _ = g.flush();
+    });
+    println!("{}", json!({"kind": "stat", "done": huge.len()}));
+    0
+}
+
 pub fn child_bg() -> i32 {
     let cs = cases(Tier::Quick);
     let bad: Vec<(usize, (String, String))> = cs.par_iter().enumerate().filter_map(|(i, c)| check(c).map(|m| (i, m))).collect();
